@@ -33,6 +33,7 @@ def Op.caller : Op → Option Conn
   | .release c _ => some c
   | .getOwner c _ => some c
   | .listQueued c _ => some c
+  | .other c => some c
 
 theorem step_ok {s : State} (hI : Inv s) (op : Op)
     (hc : ∀ c, op.caller = some c → s.connected c = true) : ∃ s' evs, step s op = .ok (s', evs) := by
@@ -49,6 +50,7 @@ theorem step_ok {s : State} (hI : Inv s) (op : Op)
     exact ⟨s', _, h⟩
   | getOwner c n => exact ⟨_, _, getNameOwner_post hI c n⟩
   | listQueued c n => exact ⟨_, _, listQueuedOwners_post s c n⟩
+  | other c => exact ⟨_, _, rfl⟩
 
 theorem abs_init : abs State.init = Spec.State.init := by
   unfold abs Spec.State.init
